@@ -1,12 +1,12 @@
 (* C09 — Only fresh metrics from members are used; an expired peer alerts once.
-   Statements only; every proof is `exact <lemma of Proofs/C09_Metrics.v>`.
+   Statements only; every proof is `exact <lemma of Proofs/C09_{Metrics,Monitor,Removed}.v>`.
    Histories `h` are arbitrary lists of events: Add of any metric (any name, peer, validity, expiry),
    RemovePeer, and Check passes = any sequence of failure decisions (CheckPeers / CheckAll in any map
    order, over any peer list) at any instant, each with any accrual verdict (the floating-point phi is an
    oracle bit). `reach h` is the store after h from the empty store. The checker modelled is the repaired
    one (/repo branch fix-S9); the loop as written at 9309c15 is kept as `check_peers_as_written` and
    refuted below. *)
-From V Require Import Base.Common Model.C09_Metrics Model.C09_Check Proofs.C09_Metrics Proofs.C09_Monitor.
+From V Require Import Base.Common Model.C09_Metrics Model.C09_Check Proofs.C09_Metrics Proofs.C09_Monitor Proofs.C09_Removed.
 From Coq Require Import Sorting.Sorted.
 Open Scope Z_scope.
 
@@ -189,3 +189,35 @@ Proof. cbv zeta. split; [|split; [|repeat split; vm_compute; reflexivity]].
 (* the limitation named in hist_agreeing_passes_monitor: two different alerts with one canonical code *)
 Example alert_code_collision_example : alerts_eqb [((0, 1)%N, None)] [((0, 0)%N, Some 999%N)] = true.
 Proof. exact alert_code_collision. Qed.
+
+(* ---- a removed peer is forgotten (Store.RemovePeer, called when a peer leaves the cluster) ----
+   After RemovePeer p, and for as long as no metric of p is added again, the store holds no latest metric of p under any
+   name and LatestMetrics reports none for any name, instant and peerset — whatever Adds of other peers, other removals
+   and Check passes happen before or after. The removal changes nobody else's latest metric. *)
+Theorem removed_peer_forgotten h1 h2 p k : snd k = p -> forallb (fun e => negb (adds_peer p e)) h2 = true ->
+  latest k (reach (h1 ++ ERemovePeer p :: h2)) = None.
+Proof. exact (removed_peer_forgotten_l h1 h2 p k). Qed.
+Print Assumptions removed_peer_forgotten.
+
+Theorem removed_peer_not_reported h1 h2 p now name ps m : forallb (fun e => negb (adds_peer p e)) h2 = true ->
+  In m (latest_metrics now name ps (reach (h1 ++ ERemovePeer p :: h2))) -> mpeer m <> p.
+Proof. exact (removed_peer_not_reported_l h1 h2 p now name ps m). Qed.
+Print Assumptions removed_peer_not_reported.
+
+Theorem remove_peer_touches_only_that_peer h p k : snd k <> p ->
+  latest k (reach (h ++ [ERemovePeer p])) = latest k (reach h).
+Proof. exact (remove_peer_frame_l h p k). Qed.
+Print Assumptions remove_peer_touches_only_that_peer.
+
+(* non-vacuity: peers 1 and 2 publish fresh metrics under two names, 1 is removed, 2 publishes again: only 2 is reported;
+   before the removal both were; and once 1 publishes again it is back *)
+Example removed_peer_example :
+  let a1 := mk_m 1 0 1 true 100 in let b1 := mk_m 2 7 1 true 100 in let a2 := mk_m 3 0 2 true 100 in
+  let a2' := mk_m 4 0 2 true 200 in let a1' := mk_m 5 0 1 true 300 in
+  let h1 := [EAdd a1; EAdd b1; EAdd a2] in let h2 := [EAdd a2'; ECheck 50 [((0%N, 2%N), true)]] in
+  forallb (fun e => negb (adds_peer 1 e)) h2 = true /\
+  latest_metrics 50 0 PNone (reach h1) = [a1; a2] /\
+  latest_metrics 50 0 PNone (reach (h1 ++ ERemovePeer 1 :: h2)) = [a2'] /\
+  latest_metrics 50 7 PNone (reach (h1 ++ ERemovePeer 1 :: h2)) = [] /\
+  latest_metrics 50 0 PNone (reach (h1 ++ ERemovePeer 1 :: h2 ++ [EAdd a1'])) = [a1'; a2'].
+Proof. repeat split; vm_compute; reflexivity. Qed.
